@@ -233,7 +233,8 @@ def plan(tier, seed):
   cases = []
   for mi in range(3):
     for i in range(len(ev)):
-      cases.append({'model': mi, 'first': i, 'depth': depth})
+      cases.append({'model': mi, 'first': i,
+                    'depth': max(depth, 4) if mi == 1 else depth})
   cases.append({'hashseed': True})
   cases.append({'cross': True})
   return {
